@@ -17,6 +17,8 @@ import (
 // C03 — element decoders accept exactly the canonical encodings of curve points.
 
 type c03Case struct {
+	// Conc != 0: a concurrent batch (8 goroutines on objects they own) derived from this seed; other fields unused.
+	Conc uint64 `json:"concurrent_seed,omitempty"`
 	Dec   string `json:"decoder"`       // Decode | DecodeCompressed | DecodeUncompressed | DecodeCoordinates | DecodeHex | UnmarshalBinary
 	In    string `json:"in"`            // input bytes in hex (DecodeCoordinates: x||y, 64 bytes)
 	Str   string `json:"str,omitempty"` // DecodeHex: the literal string (In is ignored)
@@ -76,6 +78,8 @@ func c03Pre(i int) (*secp256k1.Element, oracle.Pt) {
 }
 
 func c03Generate(c *mon.Ctx) {
+	concBatches(c, c.N(6, 300), func(seed uint64) any { return &c03Case{Conc: seed} })
+
 	pool := gen.NewPool(c.SharedRng("pool"), 8)
 	n := 0
 
@@ -498,6 +502,11 @@ func c03RunSeq(c *mon.Ctx, cs *c03Case) {
 
 func c03Run(c *mon.Ctx, csAny any) {
 	cs := csAny.(*c03Case)
+
+	if cs.Conc != 0 {
+		c03RunConc(c, cs.Conc)
+		return
+	}
 	if cs.Dec == "seq" {
 		c03RunSeq(c, cs)
 		return
